@@ -17,7 +17,7 @@ import subprocess
 import sys
 import time
 
-from . import VERIF_DIR, REPO_DIR, codec, triage
+from . import VERIF_DIR, REPO_DIR, codec, die_with_parent, triage
 from .unit import Ctx, Outcome, Unit
 
 MAX_ROUNDS = {"quick": 3, "thorough": 5}
@@ -89,12 +89,23 @@ class Pool:
                 env = dict(os.environ)
                 env.setdefault("PYTHONHASHSEED", "0")
                 log = open(tpath[:-5] + ".log", "wb")
-                p = subprocess.Popen([sys.executable, "-m", "vf.worker", tpath], cwd=VERIF_DIR, env=env, stdout=log, stderr=subprocess.STDOUT)
+                p = subprocess.Popen([sys.executable, "-m", "vf.worker", tpath], cwd=VERIF_DIR, env=env, stdout=log, stderr=subprocess.STDOUT, preexec_fn=die_with_parent)
                 self.running.append((p, task, time.time(), log))
             still = []
             for p, task, t0, log in self.running:
                 rc = p.poll()
                 if rc is None:
+                    hb = task["out"] + ".hb"
+                    try:
+                        stale = time.time() - os.path.getmtime(hb) > 300
+                    except OSError:
+                        stale = False
+                    if stale:
+                        p.kill()
+                        p.wait()
+                        log.close()
+                        self.finished.append((task, "stalled"))
+                        continue
                     if task.get("timeout_s") and time.time() - t0 > task["timeout_s"]:
                         p.kill()
                         p.wait()
@@ -233,6 +244,10 @@ def main(argv=None):
                     continue
                 if rc == "timeout":
                     merged["errors"].append("worker %s/%d timed out" % (task["unit"], task["shard"]))
+                if rc == "stalled":
+                    merged["errors"].append("worker %s/%d stalled (no heartbeat: interpreter blocked) and was killed" % (task["unit"], task["shard"]))
+                if res.get("stuck"):
+                    _handle_stuck(prop, mod, task, res)
                 _merge(merged, res, task)
                 for k in res["viol"]:
                     if k not in muted:
@@ -317,6 +332,27 @@ def main(argv=None):
     )
     shutil.rmtree(scratch, ignore_errors=True)
     return rc
+
+
+def _handle_stuck(prop, mod, task, res):
+    """a worker ended itself because one case did not return for stuck_s seconds (stuck in C code). The property module
+    decides what that means (C01: CPU-budget verdict -> violation); for every other property it is a counted exclusion."""
+    case = codec.dec(res["stuck"]["case"])
+    handler = getattr(mod, "on_stuck", None)
+    verdict = handler(case, task["unit"]) if handler else None
+    if verdict is None:
+        res["excluded"]["case did not return within the watchdog time (totality is C01's business)"] = res["excluded"].get("case did not return within the watchdog time (totality is C01's business)", 0) + 1
+        return
+    key, detail = verdict
+    if key in set(task.get("known_keys", [])):
+        table = res["kf"]
+    else:
+        table = res["viol"]
+    e = table.get(key)
+    if e is None:
+        table[key] = {"count": 1, "case": res["stuck"]["case"], "detail": codec.show(detail, 400), "size": codec.size(case)}
+    else:
+        e["count"] += 1
 
 
 def _unit(units, name):
